@@ -26,6 +26,7 @@ THEOREMS = [
 ]
 
 NAMES = ["a", "b", "ts", "ts_description", "x", "value", "c", "n"]
+GROUP_ATTRS = ["name", "records", "descriptors", "flat_fields", "fieldname_to_record"]   # GroupedRecord's own attributes
 TYPES = ["string", "varint", "datetime", "datetime", "float", "bytes", "boolean", "string[]", "path", "uri", "digest", "varint[]"]
 RECNAMES = ["t/a", "t/b", "comp/x", "q", "t/a"]
 UTC = pydt.timezone.utc
@@ -39,9 +40,38 @@ IDENT = re.compile(rb"^[A-Za-z_][A-Za-z0-9_]{0,40}$")
 # observations: a record is dict(name, fields=[(name, typename, value-observation)], res=[4 observations])
 
 def obs(r):
+    from flow.record import GroupedRecord
+    if isinstance(r, GroupedRecord):
+        return obs_group(r)
     o = recgen.canon(recgen.obs_record(r, canonical_unset=True))
     n = len(o[2])
     return dict(name=o[1], fields=[(fn, ft, o[3][i]) for i, (ft, fn) in enumerate(o[2])], res=list(o[3][n:]))
+
+
+RES_TYPES = [("_source", "string"), ("_classification", "string"), ("_generated", "datetime"), ("_version", "varint")]
+
+
+def obs_group(g):
+    """the flat view of a group: its flat descriptor and the value of every key of _asdict(); attribute access must give
+    the same for every name that is not one of the group object's own attributes"""
+    tuples = list(g._desc.get_field_tuples())
+    ad = g._asdict()
+    want_keys = [n for _, n in tuples] + [k for k, _ in RES_TYPES]
+    if sorted(ad.keys()) != sorted(want_keys):
+        raise Bad("GroupedRecord %r: _asdict() has the keys %r, its flat descriptor and the reserved fields are %r" % (
+            g.name, list(ad.keys()), want_keys), dict(keys=list(ad.keys()), want=want_keys))
+    fields = [(n, t, obs_value(t, ad[n])) for t, n in tuples]
+    res = [obs_value(t, ad[k]) for k, t in RES_TYPES]
+    for (n, t, v) in fields + [(k, t, res[i]) for i, (k, t) in enumerate(RES_TYPES)]:
+        if n in GROUP_ATTRS:
+            continue        # known finding C15-group-attribute-shadows-member-field (probed separately)
+        try:
+            a = obs_value(t, getattr(g, n))
+        except Exception as e:  # noqa
+            a = "raised %s: %s" % (type(e).__name__, e)
+        if a != v:
+            raise Bad("GroupedRecord %r: attribute %r reads %s but _asdict() gives %s" % (g.name, n, repr(a), repr(v)), dict(slot=n))
+    return dict(name=g._desc.name, fields=fields, res=res)
 
 
 def obs_value(typename, v):
@@ -246,14 +276,22 @@ def ref_init_from(desc_name, desc, r, defaults):
 # ------------------------------------------------------------------------------------------------
 # generation
 
+PREUSE = ["get_all_fields", "definition", "group", "asdict", "extend", "merge", "getfields", "fields", "pack", "jsonpack",
+          "expand", "rewrite", "repr", "init_from_record"]
+
+
 class CaseGen:
     def __init__(self, rnd):
         self.rnd = rnd
+        self.made = []        # (descriptor object, declared (type, name) tuples)
+        self.history = []     # what the descriptors/records were used for BEFORE the operation under test
 
-    def fields(self, lo=0, hi=5, force_ts=None):
+    def fields(self, lo=0, hi=5, force_ts=None, extra=()):
         rnd = self.rnd
         k = rnd.randint(lo, hi)
-        names = rnd.sample(NAMES, k)
+        pool = NAMES + list(extra) * 2
+        names = rnd.sample(pool, min(k, len(pool)))
+        names = list(dict.fromkeys(names))
         out = [(rnd.choice(TYPES), n) for n in names]
         if force_ts is not None:
             # 0..3 datetime fields at any position, the rest of other types
@@ -264,13 +302,85 @@ class CaseGen:
 
     def descriptor(self, **kw):
         from flow.record import RecordDescriptor
-        return RecordDescriptor(self.rnd.choice(RECNAMES), self.fields(**kw))
+        fl = self.fields(**kw)
+        d = RecordDescriptor(self.rnd.choice(RECNAMES), fl)
+        self.made.append((d, list(fl)))
+        return d
 
-    def record(self, d):
+    def record(self, d, preuse=True):
         rnd = self.rnd
         kw = {n: (self.listval(t[:-2]) if t.endswith("[]") else recgen.value_sample(rnd, t)) for t, n in d.get_field_tuples()}
-        return d(_source=rnd.choice([None, "src", "host1"]), _classification=rnd.choice([None, "secret"]),
-                 _generated=rnd.choice(GENS), **kw)
+        r = d(_source=rnd.choice([None, "src", "host1"]), _classification=rnd.choice([None, "secret"]),
+              _generated=rnd.choice(GENS), **kw)
+        if preuse and rnd.random() < 0.5:
+            for _ in range(rnd.randint(1, 3)):
+                self.use(d, r, rnd.choice(PREUSE))
+        return r
+
+    def use(self, d, r, op):
+        """something else happens to the descriptor / record first (a history); none of it may change the record or what
+        the descriptor reports"""
+        from flow.record import GroupedRecord, extend_record, iter_timestamped_records
+        from flow.record.base import merge_record_descriptors
+        self.history.append("%s on %s%r" % (op, d.name, list(d.get_field_tuples())))
+        try:
+            if op == "get_all_fields":
+                d.get_all_fields()
+            elif op == "definition":
+                d.definition()
+            elif op == "group":
+                GroupedRecord("pre/g", [r])._asdict()
+            elif op == "asdict":
+                r._asdict()
+            elif op == "extend":
+                extend_record(r, [r])
+            elif op == "merge":
+                merge_record_descriptors((d, d))
+            elif op == "getfields":
+                d.getfields("datetime")
+            elif op == "fields":
+                list(d.fields)
+            elif op == "pack":
+                from flow.record.packer import RecordPacker
+                RecordPacker().pack(r)
+            elif op == "jsonpack":
+                from flow.record.jsonpacker import JsonRecordPacker
+                JsonRecordPacker().pack(r)
+            elif op == "expand":
+                list(iter_timestamped_records(r))
+            elif op == "rewrite":
+                from flow.record.stream import RecordFieldRewriter
+                RecordFieldRewriter(exclude=["zz"]).rewrite(r)
+            elif op == "repr":
+                repr(r)
+            elif op == "init_from_record":
+                d.init_from_record(r)
+        except Exception:  # noqa -- what these calls themselves do is the subject of other checks
+            pass
+
+    def check_descriptors(self, what):
+        """no operation changes what a descriptor reports: fields / get_field_tuples / getfields(t) / get_all_fields equal
+        the DECLARED field tuples"""
+        for d, decl in self.made:
+            got_fields = [(f.typename, n) for n, f in d.fields.items()]
+            by_type = {}
+            for t, n in decl:
+                by_type.setdefault(t, []).append(n)
+            problems = []
+            if got_fields != decl:
+                problems.append("descriptor.fields = %r" % (got_fields,))
+            if list(d.get_field_tuples()) != decl:
+                problems.append("get_field_tuples() = %r" % (list(d.get_field_tuples()),))
+            for t in sorted(set(by_type) | {"datetime", "string", "varint"}):
+                gf = [f.name for f in d.getfields(t)]
+                if gf != by_type.get(t, []):
+                    problems.append("getfields(%r) = %r" % (t, gf))
+            allf = list(d.get_all_fields())
+            if allf != [n for _, n in decl] + [k for k, _ in RES_TYPES]:
+                problems.append("get_all_fields() = %r" % (allf,))
+            if problems:
+                raise Bad("after %s the descriptor %s declared as %r reports %s" % (what, d.name, decl, "; ".join(problems)),
+                          dict(declared=repr(decl), problems=problems))
 
     def listval(self, et):
         rnd = self.rnd
@@ -402,23 +512,47 @@ def case_expand(g, T):
     return terms, ("expand", repr(before)), nts >= 1 and (nts >= 2 or special)
 
 
-def build_group(g, depth=0):
-    """-> (python GroupedRecord, list of member records (flattened, python objects), Coq garg-list term builder)"""
+def build_group(g, depth=0, extra=None):
+    """-> (python GroupedRecord, name, args) ; args: records or nested (group, name, args) triples.
+    Member fields called like one of GroupedRecord's own attributes are generated only in groups WITHOUT nested groups
+    (nested: known finding C15-nested-group-attribute-name, probed separately)."""
     from flow.record import GroupedRecord
     rnd = g.rnd
     name = rnd.choice(["grp/x", "g", "grp/y"])
+    if extra is None:
+        extra = GROUP_ATTRS if rnd.random() < 0.5 else ()
     args = []
     for _ in range(rnd.randint(1 if depth else 2, 3)):
-        if depth < 2 and rnd.random() < 0.25:
-            args.append(build_group(g, depth + 1))
+        if not extra and depth < 2 and rnd.random() < 0.3:
+            args.append(build_group(g, depth + 1, extra=()))
         else:
-            args.append(g.record(g.descriptor(lo=0, hi=4)))
+            args.append(g.record(g.descriptor(lo=0, hi=4, extra=extra)))
     try:
         py = GroupedRecord(name, [a[0] if isinstance(a, tuple) else a for a in args])
     except Exception as e:  # noqa
         raise Bad("GroupedRecord(%r, %s) raised %s: %s" % (name, [describe(obs(m)) for m in group_members(args)], type(e).__name__, e),
                   dict(error=repr(e)))
     return py, name, args
+
+
+def probe_known(ctx):
+    """the two listed defect classes around member fields called like an attribute of the group object"""
+    from flow.record import GroupedRecord, RecordDescriptor
+    kf = {f["id"]: f for f in core.known_for("C15")}
+    A = RecordDescriptor("probe/user", [("string", "name"), ("varint", "uid")])
+    r = A(name="alice", uid=1, _generated=GENS[0])
+    g = GroupedRecord("grp/p", [r])
+    for fid, got, wrong, what in (
+            ("C15-group-attribute-shadows-member-field", getattr(g, "name"), "grp/p",
+             "GroupedRecord('grp/p', [probe/user(name='alice')]).name"),
+            ("C15-nested-group-attribute-name", GroupedRecord("grp/o", [GroupedRecord("grp/i", [A(name="alice", uid=1, _generated=GENS[0])])])._asdict().get("name"),
+             "grp/i", "GroupedRecord('grp/o', [GroupedRecord('grp/i', [probe/user(name='alice')])])._asdict()['name']")):
+        if got == "alice":
+            ctx.notes.append("known finding %s no longer reproduces" % fid)
+        elif got == wrong and fid in kf:
+            ctx.known_finding(fid, kf[fid]["what"])
+        else:
+            ctx.violation("%s is %r, expected the member's value 'alice'" % (what, got), dict(kind="group-attribute-probe", finding=fid, got=repr(got)))
 
 
 def group_members(args):
@@ -476,7 +610,7 @@ def case_group(g, T):
         if after != wanta:
             raise Bad("setting %r through %s changed the members to %s, expected only the first member having it to change: %s" % (
                 k, what, repr(after), repr(wanta)), dict(got=repr(after), want=repr(wanta), slot=k))
-        got_back = obs_value(t, getattr(py, k))
+        got_back = obs_value(t, py._asdict()[k] if k in GROUP_ATTRS else getattr(py, k))
         if got_back != cv:
             raise Bad("reading %r back through %s gives %s after setting %s" % (k, what, repr(got_back), repr(cv)), dict(slot=k))
         terms.append("recs_eqb (gmembers (group_set RES %s %s %s)) %s" % (gterm, cstr(k), T.tok(cv), T.recs(after)))
@@ -642,7 +776,54 @@ def case_init(g, T, defaults):
     return terms, ("init", repr(before), tuple(tf)), bool(unknown or extra)
 
 
-KINDS = [("merge", case_merge, 250), ("extend", case_extend, 450), ("expand", case_expand, 350), ("group", case_group, 300),
+def case_asdict(g, T):
+    """the flat view through _asdict(), _asdict(fields=), _asdict(exclude=) and both, for groups and plain records"""
+    rnd = g.rnd
+    if rnd.random() < 0.75:
+        x, name, args = build_group(g)
+        members = group_members(args)
+    else:
+        x = g.record(g.descriptor(lo=0, hi=5, extra=GROUP_ATTRS))
+        members = [x]
+    mobs = [obs(m) for m in members]
+    view = obs(x) if len(members) != 1 or x is not members[0] else mobs[0]
+    want_view = ref_group_view(view["name"], mobs) if x is not members[0] else mobs[0]
+    if view != want_view:
+        raise Bad("%s exposes %s through _asdict(), expected %s" % (describe(view), repr(view), repr(want_view)), dict(got=repr(view), want=repr(want_view)))
+    val = {n: (t, v) for n, t, v in view["fields"]}
+    for i, (k, t) in enumerate(RES_TYPES):
+        val[k] = (t, view["res"][i])
+    order = [f[0] for f in view["fields"]] + [k for k, _ in RES_TYPES]
+    pool = order + ["zz", "nope"] + GROUP_ATTRS
+    F = [rnd.choice(pool) for _ in range(rnd.randint(1, 5))]
+    X = [rnd.choice(pool) for _ in range(rnd.randint(1, 3))]
+    what0 = "%s(%s)" % ("GroupedRecord" if x is not members[0] else "record", [describe(m) for m in mobs])
+    for fields, exclude in ((None, None), (F, None), (None, X), (F, X), ([], X), (F, [])):
+        what = "%s._asdict(fields=%r, exclude=%r)" % (what0, fields, exclude)
+        ex = exclude or []
+        if fields:
+            want_keys = list(dict.fromkeys(k for k in fields if k in val and k not in ex))
+        else:
+            want_keys = [k for k in order if k not in ex]
+        try:
+            ad = x._asdict(fields=fields, exclude=exclude)
+            got_keys = list(ad.keys())
+            got = {k: obs_value(val[k][0], ad[k]) for k in got_keys if k in val}
+            err = None
+        except Exception as e:  # noqa
+            got_keys, got, err = None, None, "%s: %s" % (type(e).__name__, e)
+        ordered = bool(fields) or x is members[0]
+        want = {k: val[k][1] for k in want_keys}
+        if err or (got_keys != want_keys if ordered else sorted(got_keys) != sorted(want_keys)) or got != want:
+            raise Bad("%s gave %s, the flat view restricted to the requested names is %s" % (
+                what, err or repr([(k, got.get(k)) for k in got_keys]), repr([(k, want[k]) for k in want_keys])),
+                dict(got=repr(got), want=repr(want), error=err, fields=fields, exclude=exclude))
+    check_unchanged(mobs, members, what0 + "._asdict(...)")
+    special = any(f[0] in GROUP_ATTRS for m in mobs for f in m["fields"])
+    return [], ("asdict", repr(mobs), tuple(F), tuple(X)), special or len(members) > 1
+
+
+KINDS = [("asdict", case_asdict, 300), ("merge", case_merge, 250), ("extend", case_extend, 450), ("expand", case_expand, 350), ("group", case_group, 300),
          ("greplace", case_group_replace, 350), ("rreplace", case_rec_replace, 150), ("rewrite", case_rewrite, 400),
          ("init", case_init, 150)]
 
@@ -651,10 +832,13 @@ def run_case(kind, fn, seed, i, T, defaults):
     rnd = random.Random("%d:%s:%d" % (seed, kind, i))
     g = CaseGen(rnd)
     try:
-        if kind == "init":
-            return fn(g, T, defaults)
-        return fn(g, T)
-    except Bad:
+        out = fn(g, T, defaults) if kind == "init" else fn(g, T)
+        g.check_descriptors("the %s case #%d" % (kind, i))
+        return out
+    except Bad as b:
+        if g.history:
+            b.what += " [history: before the operation, %s]" % "; ".join(g.history)
+            b.detail = dict(b.detail, history=list(g.history))
         raise
     except Exception as e:  # noqa -- an exception outside the guarded calls (constructing or observing a composition)
         import traceback
@@ -749,6 +933,9 @@ def run(ctx):
 
 
 def correspondence(ctx):
+    probe_known(ctx)
+    if ctx.violations:
+        return
     T = Tokens()
     defaults = {t: default_of(t) for t in set(TYPES)}
     scale = 1 if ctx.tier == "quick" else 8
